@@ -1,8 +1,10 @@
 """C12 -- independence of packaging and of homogeneous rescaling (T1, H1)."""
 from ..rules import dtype_rules as D
+from ..rules import cache_rules as CA
 from ..rules import hyp_rules as H
 from ..rules import sibling_rules as SI
 from ..rules import degree_rules as DG
+from ..rules import shape_rules as SH
 from ..rules.common import u1
 
 CORE = D.CORE_REL
@@ -26,8 +28,12 @@ def run(ctx):
     ctx.do(H.rule_h1)
     ctx.do(H.rule_h2)
     ctx.do(D.rule_t2)
+    ctx.do(D.rule_t3, [CORE, HYP, 'geometry_tools/projective.py'])
+    ctx.do(D.rule_lk1, [HYP, 'geometry_tools/projective.py', 'geometry_tools/complex_projective.py'])
     ctx.do(SI.rule_of1)
     ctx.do(DG.rule_hd1)
+    ctx.do(CA.rule_c2, "ProjectiveObject")
+    ctx.do(SH.rule_sh5, only={"Point.unit_tangent_towards", "Point.distance", "Point.origin_to", "TangentVector.origin_to"})
     ctx.do(u1, ENTRIES + [
         (HYP, "Point.unit_tangent_towards"), (HYP, "Point.distance"),
         (HYP, "Point.origin_to"), (HYP, "TangentVector.origin_to"),
